@@ -1,4 +1,5 @@
 From Verif Require Import Lib.Base Ledger.SharePool Ledger.SharePoolProofs Ledger.SharePoolSeq Ledger.SharePoolExamples.
+From Verif Require Import Ledger.Debond Ledger.DebondProofs Ledger.DebondExamples.
 
 (* Deposit (api.go:659): on success the pool becomes (B+a, S+m), m = a when no
    shares exist, else floor(a*S/B); unless the pool holds an orphan balance
@@ -146,3 +147,57 @@ Theorem slash_same_fraction : forall ba bd amount,
   ta * bd <= (td + 1) * ba /\ td * ba <= (ta + 1) * bd.
 Proof. exact slash_same_fraction_l. Qed.
 Print Assumptions slash_same_fraction.
+
+(* The orphan-balance state (no shares, non-zero balance) is unreachable when
+   rewards are proportional to the balance, as the code computes them. *)
+Theorem no_orphan_invariant : forall ops st, wfm st -> no_orphan st -> prop_rewards st ops ->
+  no_orphan (mfinal st ops).
+Proof. exact no_orphan_invariant_l. Qed.
+Print Assumptions no_orphan_invariant.
+
+(* Debonding. Over every history of escrow additions, reclaims (with any
+   debonding interval), epoch transitions (any epochs), rewards and slashes
+   from a well-formed state: onEpochChange never fails; every delegation still
+   queued ends at or after the epoch of the last transition (whatever was due
+   has been paid at the transition that reached it); per (end epoch, delegator)
+   the debonding shares minted by reclaims = shares redeemed by pay-outs +
+   shares still queued (paid exactly once); every pay-out was made at a
+   transition at or after the end epoch, for the worth of the shares in the
+   debonding pool at that moment, at most pro rata. *)
+Theorem reclaim_paid_exactly_once : forall st0 ops,
+  wfD st0 ->
+  let st := drun st0 ops in
+  dhalt st = false /\
+  Forall (fun x => depoch st <= eend x) (dq st) /\
+  (forall e d, ksum e d (dminted st) = lsum e d (dlog st) + ksum e d (dq st)) /\
+  Forall plog_ok (dlog st).
+Proof. exact reclaim_paid_exactly_once_l. Qed.
+Print Assumptions reclaim_paid_exactly_once.
+
+Theorem epoch_pays_exactly_due : forall st e,
+  wfD st ->
+  let st' := dnext st (DEpoch e) in
+  dq st' = filter (fun x => e <? eend x) (dq st) /\
+  depoch st' = e /\ dact st' = dact st /\
+  exists new, dlog st' = new ++ dlog st /\ Forall (fun r => pat r = e) new /\
+              length new = length (filter (fun x => eend x <=? e) (dq st)).
+Proof. exact epoch_pays_exactly_due_l. Qed.
+Print Assumptions epoch_pays_exactly_due.
+
+Theorem reclaim_moves_stake : forall st d s iv,
+  wfD st -> snd (dstep st (DReclaim d s iv)) = COk ->
+  let st' := dnext st (DReclaim d s iv) in
+  let p := worth (dact st) s in
+  s <> 0 /\ s <= sget d (ddels st) /\
+  dact st' = mkPool (bal (dact st) - p) (tsh (dact st) - s) /\
+  bal (ddeb st') = bal (ddeb st) + p /\
+  dlog st' = dlog st /\ depoch st' = depoch st /\
+  exists m, tsh (ddeb st') = tsh (ddeb st) + m /\
+            dq st' = qinsert (depoch st + iv) d m (dq st) /\
+            (~ orphan (ddeb st) -> m * bal (ddeb st) <= p * tsh (ddeb st)).
+Proof. exact reclaim_moves_stake_l. Qed.
+Print Assumptions reclaim_moves_stake.
+
+Theorem debond_wf_reachable : forall epoch ops, wfD (drun (dinit epoch) ops).
+Proof. exact debond_wf_reachable_l. Qed.
+Print Assumptions debond_wf_reachable.
